@@ -354,7 +354,78 @@ def inline_helpers(cls, fn, keep=(), depth=3):
     meths = methods(cls)
     keep = set(keep) | set([fn.name])
 
+    def always_returns(stmts):
+        if not stmts:
+            return False
+        l = stmts[-1]
+        if isinstance(l, (ast.Return, ast.Raise)):
+            return True
+        if isinstance(l, ast.If):
+            return always_returns(l.body) and always_returns(l.orelse)
+        return False
+
+    def has_return(stmts):
+        return any(isinstance(x, ast.Return) for st in stmts for x in ast.walk(st))
+
+    def single_exit(stmts):
+        """early returns turned into if/else nesting (the statements after an `if` that returns are moved into the branches that fall through); a `return e`
+        in tail position stays.  None when a return sits inside a loop / try / with."""
+        out = []
+        for k, st in enumerate(stmts):
+            rest = stmts[k + 1:]
+            if isinstance(st, ast.Return):
+                out.append(st)
+                return out
+            if isinstance(st, ast.If) and (has_return(st.body) or has_return(st.orelse)):
+                b = single_exit(list(st.body) + ([] if always_returns(st.body) else [copy.deepcopy(x) for x in rest]))
+                o = single_exit(list(st.orelse) + ([] if always_returns(st.orelse) else [copy.deepcopy(x) for x in rest]))
+                if b is None or o is None:
+                    return None
+                n_if = ast.If(test=st.test, body=b or [ast.Pass()], orelse=o, lineno=st.lineno, col_offset=0)
+                out.append(n_if)
+                return out
+            if has_return([st]):
+                return None
+            out.append(st)
+        return out
+
+    def tail_returns(stmts, shape, target, line):
+        """replace the returns in tail position of a single-exit body by what the call site does with the value"""
+        if not stmts:
+            stmts = []
+        res = list(stmts)
+        last = res[-1] if res else None
+        def conv(value, ln):
+            if shape == 'expr':
+                return [ast.Expr(value=value, lineno=ln, col_offset=0)] if value is not None else []
+            if shape == 'assign':
+                return [ast.Assign(targets=[copy.deepcopy(t_) for t_ in target], value=value if value is not None else ast.Constant(value=None), lineno=ln, col_offset=0)]
+            return [ast.Return(value=value, lineno=ln, col_offset=0)]
+        if isinstance(last, ast.Return):
+            res = res[:-1] + conv(last.value, last.lineno)
+        elif isinstance(last, ast.If) and (has_return(last.body) or has_return(last.orelse)):
+            last.body = tail_returns(last.body, shape, target, line) or [ast.Pass()]
+            last.orelse = tail_returns(last.orelse, shape, target, line)
+        elif isinstance(last, ast.Raise):
+            pass
+        else:
+            res = res + (conv(None, line) if shape != 'expr' else [])
+        return res
+
     def simple(h):
+        if any(isinstance(x, (ast.Yield, ast.YieldFrom, ast.Global, ast.Nonlocal)) for x in ast.walk(h)):
+            return False
+        if h.args.vararg or h.args.kwarg or h.args.kwonlyargs:
+            return False
+        body0 = docstring_stripped(h.body)
+        if not body0:
+            return False
+        inner_defs0 = [x for x in ast.walk(h) if isinstance(x, (ast.FunctionDef, ast.Lambda)) and x is not h]
+        if any(isinstance(r, ast.Return) for d in inner_defs0 for r in ast.walk(d)):
+            return False
+        return single_exit([copy.deepcopy(x) for x in body0]) is not None
+
+    def simple_old(h):
         rets = [r for r in ast.walk(h) if isinstance(r, ast.Return)]
         if any(isinstance(x, (ast.Yield, ast.YieldFrom, ast.Global, ast.Nonlocal)) for x in ast.walk(h)):
             return False
@@ -399,25 +470,10 @@ def inline_helpers(cls, fn, keep=(), depth=3):
             if isinstance(a, ast.Name) and a.id == p:
                 continue
             out.append(ast.Assign(targets=[ast.Name(id=p, ctx=ast.Store())], value=copy.deepcopy(a), lineno=call.lineno, col_offset=0))
-        body = [copy.deepcopy(s) for s in docstring_stripped(h.body)]
-        last = body[-1] if body else None
-        if isinstance(last, ast.Return):
-            body.pop()
-            if last.value is not None:
-                if shape == 'expr':
-                    body.append(ast.Expr(value=last.value, lineno=last.lineno, col_offset=0))
-                elif shape == 'assign':
-                    body.append(ast.Assign(targets=[copy.deepcopy(t) for t in target], value=last.value, lineno=last.lineno, col_offset=0))
-                else:
-                    body.append(ast.Return(value=last.value, lineno=last.lineno, col_offset=0))
-            elif shape == 'assign':
-                body.append(ast.Assign(targets=[copy.deepcopy(t) for t in target], value=ast.Constant(value=None), lineno=last.lineno, col_offset=0))
-            elif shape == 'return':
-                body.append(ast.Return(value=None, lineno=last.lineno, col_offset=0))
-        elif shape == 'assign':
-            body.append(ast.Assign(targets=[copy.deepcopy(t) for t in target], value=ast.Constant(value=None), lineno=call.lineno, col_offset=0))
-        elif shape == 'return':
-            body.append(ast.Return(value=None, lineno=call.lineno, col_offset=0))
+        body = single_exit([copy.deepcopy(s) for s in docstring_stripped(h.body)])
+        if body is None:
+            return None
+        body = tail_returns(body, shape, target, call.lineno)
         for s in out + body:
             for x in ast.walk(s):
                 x.inlined_from = h.name
